@@ -811,6 +811,11 @@ def gen_plan(seed: int, cfg: dict) -> dict:
     order: list[str] = []
     sessions: list[list[dict]] = []
     sm_run = bool(cfg.get("sourcemaps")) and r.random() < 0.5
+    if sm_run:
+        # under the source-map gate every Expr captures its stack: recursive ABI subroutines
+        # (evaluated until RecursionError) would cost tens of seconds per build
+        feats = dict(feats)
+        feats["abi_recursion"] = False
     pcount = 0
     live_targets: list[str] = []
     nfaults_budget = r.choice([1, 1, 2, 3]) if enabled else 0
